@@ -215,6 +215,12 @@ def fresh_symbol(model: RefDir, prefix, n, r):
         return f'°{base}'
     if k == 5:
         return f'{base}.b-c'
+    if k == 7:
+        return f'{base} '       # padded: a symbol is taken as it is given
+    if k == 8:
+        # characters that Unicode normalisation would rewrite (OHM SIGN,
+        # ANGSTROM SIGN, a decomposed A-ring): a symbol is taken as given
+        return ['\u2126', '\u212b', 'A\u030a', '\u212a'][r // 12 % 4] + base
     if k == 6 and model.uorder:
         # differs from an existing symbol only by case
         other = model.uorder[r % len(model.uorder)].swapcase()
